@@ -100,7 +100,15 @@ func c13model(c *Ctx) {
 	}
 	tolNote := ""      // a deviation compared with something other than the tolerance
 	var constAns *bool // set: every distance question gets this answer (the multi-geometry facet)
+	spanFar := false // set: a deviation is beyond the tolerance exactly when the replacing segment skips two vertices or more
 	ask := func(key string) bool {
+		if spanFar {
+			var k, a, b int
+			if n, _ := fmt.Sscanf(key, "dist %d %d %d", &k, &a, &b); n == 3 {
+				return b-a >= 3 || a-b >= 3
+			}
+			return false
+		}
 		if constAns != nil {
 			return *constAns
 		}
@@ -706,12 +714,13 @@ func c13model(c *Ctx) {
 				continue
 			}
 			bad, unk := "", ""
-			for _, far := range []bool{false, true} {
+			for modeNo, far := range []bool{false, true, false} {
 				if bad != "" || unk != "" {
 					break
 				}
 				ans := far
 				constAns = &ans
+				spanFar = modeNo == 2
 				run = &c13run{memo: map[string]bool{}}
 				vertexOf = map[int64]int{}
 				next := 0
@@ -743,6 +752,9 @@ func c13model(c *Ctx) {
 					whole = m.sliceOf(m.mpolyT, members)
 				}
 				mode := map[bool]string{false: "every deviation within the tolerance", true: "every deviation beyond the tolerance"}[far]
+				if spanFar {
+					mode = "one vertex may be skipped, two may not"
+				}
 				var want [][][]int
 				for i, mb := range members {
 					c.Evals(1)
@@ -763,7 +775,41 @@ func c13model(c *Ctx) {
 				}
 				before := deepCopy(whole)
 				c.Evals(1)
+				asked := len(run.queries)
+				// which member each vertex number belongs to
+				memberOf := map[int]int{}
+				for i, mb := range members {
+					seqs, _ := seqOf(mb)
+					for _, sq := range seqs {
+						for _, k := range sq {
+							memberOf[k] = i
+						}
+					}
+				}
 				res, why := it.Call(tcase.multi, whole, []oval{oSym{polyVar("tol")}}, 0)
+				// independence: the simplicity question about a shortcut inside member i is asked of
+				// member i's own curves only — handed a sibling's vertices, the answer (and with it the
+				// member's result) would depend on the sibling
+				for _, q := range run.queries[asked:] {
+					if q.kind != "simple" || bad != "" {
+						continue
+					}
+					mi, ok := memberOf[q.a]
+					if !ok {
+						continue
+					}
+					for _, f := range strings.Fields(q.cover) {
+						var k int
+						fmt.Sscan(f, &k)
+						if mj, ok := memberOf[k]; ok && mj != mi {
+							bad = fmt.Sprintf("%s.Simplify (%s): the simplicity test of the shortcut %d–%d inside member %d is handed vertex %d of member %d: the member's result depends on its siblings, it is not simplified independently", tcase.name, mode, q.a, q.b, mi, k, mj)
+							break
+						}
+					}
+				}
+				if bad != "" {
+					break
+				}
 				if why != "" {
 					if strings.HasPrefix(why, "panic:") {
 						bad = fmt.Sprintf("%s.Simplify panics (%s): %s", tcase.name, mode, why)
@@ -805,8 +851,8 @@ func c13model(c *Ctx) {
 					}
 				}
 			}
-			constAns = nil
-			report3(c, "C13.R4", cons, c.P.Decl(tcase.multi).Pos(), bad, unk, "member i of the result is member i simplified on its own, over the full range, under both constant answers; the receiver is unchanged and not shared")
+			constAns, spanFar = nil, false
+			report3(c, "C13.R4", cons, c.P.Decl(tcase.multi).Pos(), bad, unk, "member i of the result is member i simplified on its own, over the full range, under both constant answers and with one vertex skippable but not two (where the simplicity test is asked: only about the member's own curves); the receiver is unchanged and not shared")
 		}
 		simpleFixed = false
 	}
